@@ -67,6 +67,17 @@ def handleGen (op : String) (j : Json) : Except String Json := do
       match apply_overrides hasOptionR hasSectionR sectionKeysR removeOptionR removeSectionR addSectionR setValueR (wrap ini) (ovs.map toOv) (ads.map toOv) with
       | .error e => return Json.mkObj [("err", match e with | .missing => "missing" | .exists => "exists" | .badValue => "badValue" | .malformedOption => "malformedOption")]
       | .ok r => return Json.mkObj [("ini", iniJ r.state)]
+  | "eam_builder" =>
+    -- EAM_Potential_Builder._init_eampotentials (zero-filling) on rows (species, function id) and a reference-data table; the set iteration order is `reverse` or the identity
+    let rows := fun (k : String) => do (← getArr j k).mapM fun r => do return ({ species := ← getStr r "sp", pfi := ⟨← getNat r "fid"⟩ } : EmbRow)
+    let metaT ← (← getArr j "meta").mapM fun r => do
+      return ((← getStr r "sp"), (getInt r "z").toOption, (getRat r "mass").toOption, (getRat r "a0").toOption, (getStr r "lat").toOption)
+    let look := fun (s : String) => metaT.find? fun e => e.1 == s
+    let ord : List String → List String := if (← getBool j "reverse") then List.reverse else id
+    match eam_init_potentials (fun p => ⟨p.id⟩) ord (fun s => (look s).bind (·.2.2.1)) (fun s => (look s).bind (·.2.1)) (fun s => (look s).bind (·.2.2.2.1)) (fun s => (look s).bind (·.2.2.2.2))
+        (← getBool j "add_undefined") ⟨← rows "embed", ← rows "density"⟩ () () with
+    | .ok l => return arrJ (l.map fun e => arrJ [Json.str e.species, intJ e.atomicNumber, ratJ e.mass, ratJ e.latticeConstant, Json.str e.latticeType, natJ e.embed.fid, natJ e.dens.fid])
+    | .error e => return Json.str (match e with | .speciesMismatch => "speciesMismatch" | .noMass => "noMass" | .noAtomicNumber => "noAtomicNumber" | .keyError => "keyError")
   | "tab_write" =>
     -- the `write` methods of the tabulation objects; answer: the tokens (or "raised") and the number of chunks the destination-mode twin hands the destination
     let which ← getStr j "which"
